@@ -18,7 +18,9 @@ TEXTS = {
     'C02': {'text': 'RollbackNoTrace (action property), FillAccounting and the store invariants are model-checked for one writer with '
                     'failing inserts and rollbacks; sequential and scheduler-driven histories with rollbacks, failing inserts and an '
                     'observer (second transaction / dump) in the middle of the writer are validated: dump before/during/after, nothing '
-                    'emitted on rollback (the stream is part of the state).',
+                    'emitted on rollback (the stream is part of the state). Single-operation transactions also go through the collection\'s one-call shortcuts '
+                    '(Insert, QueryAt, DeleteAt, InsertKey, UpsertKey, QueryKey, DeleteKey) with failing callbacks: error returned iff the callback failed, and then no trace; '
+                    'seq/c02k does the same on a keyed collection.',
             'note': _NOTE, 'technique': _T},
     'C03': {'text': 'IndexCoherent is an invariant of the specification (model-checked with three indexes over two columns incl. merge '
                     'and offset reuse) and is evaluated in every state of every validated real execution; histories create and drop '
@@ -64,7 +66,9 @@ TEXTS = {
     'C09': {'text': 'Merges are applied inside Apply (one action under the block latch); ReadBack against the per-row fold in apply '
                     'order is model-checked for 2 concurrent writers; controlled schedules of 2-4 writers merging (additive and '
                     'order-sensitive affine merge, string concat, all numeric types, records) into overlapping rows are validated: '
-                    'every in-latch logger event must carry the absolute value the specification computes from the apply order.',
+                    'every in-latch logger event must carry the absolute value the specification computes from the apply order. A second family (par/c09) '
+                    'runs 4-6 goroutines in real parallelism (no scheduler; user merge functions that take tens of microseconds) merging numbers, records and '
+                    'strings into rows of 2-3 blocks: commits into different blocks overlap inside Apply; the in-latch logger gives the apply order per block.',
             'note': _NOTE, 'technique': _T},
     'C10': {'text': 'Latch.tla models writer and reader at single-column grain: NoTornRead and Exclusion hold with the read latch and '
                     'TLC finds a torn read without it (negative control run on every check). On the real code, 16-core stress: writers '
@@ -76,7 +80,8 @@ TEXTS = {
     'C11': {'text': 'NoCollision, OccupiedIsLive, FillAccounting, NoStaleValues are model-checked for 2 concurrent writers inserting '
                     'and deleting over 3 offsets in 2 blocks; on the real code every offset an insert returns must be free in the '
                     'model (sequential histories over fragmented fill patterns across word and block boundaries, all capacities; '
-                    'controlled schedules of concurrent inserters/deleters); reused offsets must read back absent in every column.',
+                    'controlled schedules of concurrent inserters/deleters); reused offsets must read back absent in every column and in every bitmap index '
+                    '(the re-inserting row often leaves the indexed column unset).',
             'note': _NOTE, 'technique': _T},
     'C12': {'text': 'KeyCoherent (the key table is a bijection between keys and the live rows carrying them) is model-checked for 2 '
                     'concurrent transactions running InsertKey / UpsertKey / DeleteKey step by step (lookup, reserve, key write, return) '
